@@ -388,6 +388,59 @@ theorem C04_generic_single_noTri (L : OrderLaws α) (hnan : ∀ x : α, Num.isNa
     rw [e, sameCluster_map G, reach_map G rfl] at this
     exact this
 
+/-- **Counting form for `generic_with(Single)`, no `LtTrichotomy`.** -/
+theorem C04_generic_single_count_noTri (L : OrderLaws α) (hnan : ∀ x : α, Num.isNaN x = false)
+    (B : BeqOrd α) (chk : Bool) (st : State α) (d : Dendrogram α)
+    (data : Array α) (n : Nat) (h2 : 2 ≤ n) (hs : n < 2147483648)
+    (hl : 2 * data.size = n * (n - 1))
+    (hin : ∀ i (h : i < data.size), Num.lt data[i] (Num.maxValue : α) = true) :
+    ∃ st' d' M', genericWith chk .single st d data n = .ok (st', d', M') ∧
+      d'.steps.toList.Pairwise (fun s t => Num.lt t.d s.d = false) ∧
+      ∀ h : α, ∃ reps : List Nat,
+        (d'.steps.toList.filter (fun st => !Num.lt h st.d)).length + reps.length = n ∧
+        (∀ r ∈ reps, r < n) ∧
+        reps.Pairwise (fun r r' => ¬ Reach n data h r r') ∧
+        (∀ u, u < n → ∃ r ∈ reps, Reach n data h u r) := by
+  letI : Num (OrdQ L hnan) := ordQNum L hnan
+  have G := ordQ_ordHom L hnan B
+  have hl' : 2 * (data.map (OrdQ.mk L hnan)).size = n * (n - 1) := by rw [Array.size_map]; exact hl
+  have hsq : squareData Method.single (data.map (OrdQ.mk L hnan)) = data.map (OrdQ.mk L hnan) := by
+    simp [squareData, Method.onSquares]
+  obtain ⟨stq, dq, Mq, hrq, hsorted, hcount⟩ := C04_generic_single_count (ordQ_orderLaws L hnan)
+    (ordQ_trichotomy L hnan) (ordQ_beqLe L hnan) (ordQ_goodSet L hnan) chk rfl (State.new)
+    (Dendrogram.new 0) (data.map (OrdQ.mk L hnan)) n h2 hs hl' (by
+      rw [hsq]
+      intro i hi
+      have hi' : i < data.size := by simpa using hi
+      simp only [Array.getElem_map]
+      exact hin i hi')
+  have nat := C10 G (m := .single) (Or.inl rfl) chk .generic
+    (fun _ => SentinelSafe.of_fix G rfl) (fun h => by cases h)
+    st State.new d (Dendrogram.new 0) data n
+  have hrq' : runWith chk .generic .single State.new (Dendrogram.new 0)
+      (data.map (OrdQ.mk L hnan)) n = .ok (stq, dq, Mq) := hrq
+  rw [hrq'] at nat
+  cases hr : runWith chk .generic .single st d data n with
+  | error p => rw [hr] at nat; cases nat
+  | ok r =>
+    rw [hr] at nat
+    obtain ⟨st', d', M'⟩ := r
+    have hd : dq = mapDend (OrdQ.mk L hnan) d' := by
+      simp only [Functor.map, Except.map, out, mapOut, Except.ok.injEq, Prod.mk.injEq] at nat
+      exact nat.1
+    have e : dq.steps.toList = d'.steps.toList.map (mapStep (OrdQ.mk L hnan)) := by
+      rw [hd]; simp [mapDend]
+    refine ⟨st', d', M', hr, ?_, fun h => ?_⟩
+    · rw [e] at hsorted
+      exact (pairwise_sorted_map G _).mp hsorted
+    · obtain ⟨reps, h1, h2', h3, h4⟩ := hcount (OrdQ.mk L hnan h)
+      rw [e, filter_le_map G] at h1
+      refine ⟨reps, h1, h2', ?_, ?_⟩
+      · exact h3.imp (fun hne hr' => hne ((reach_map G rfl n data h _ _).mpr hr'))
+      · intro u hu
+        obtain ⟨r, hr1, hr2⟩ := h4 u hu
+        exact ⟨r, hr1, (reach_map G rfl n data h u r).mp hr2⟩
+
 /-- **Single linkage cuts identically through `nnchain_with` and `generic_with` at every level, `±0`
 included** (both are the threshold components). -/
 theorem C04_nnchain_generic_same_cuts_noTri (L : OrderLaws α) (hnan : ∀ x : α, Num.isNaN x = false)
